@@ -70,12 +70,19 @@ def reset_world():
 def gen_case(rng, tier):
     kind = rng.choice(KINDS)
     max_n = rng.choice((4, 6, 7)) if tier == "quick" else rng.choice((4, 6, 7, 8, 9))
+    if kind in ("repr", "relabel") and rng.random() < 0.5:
+        max_n = rng.choice((9, 10))          # sparse graphs of this size are where the curvature search has choices
     ev = lambda: {"mode": rng.choice(simrandom.MODES), "k": rng.randrange(1000)}  # noqa: E731
     inp = {"kind": kind, "mso": list(rng.choice(mg.MSO_CHOICES))}
     if kind in ("repr", "relabel"):
         G, H, iso = mg.gen_pair(rng, max_n)
         inp.update({"G": G, "H": H})
         k = rng.randint(2, 5)
+        if kind == "repr" and max_n >= 9 and rng.random() < 0.6:
+            # many RNG schedules on one labelled pair, without the (expensive) exact reference: the lower bound
+            # must not move with the RNG state
+            inp["no_reference"] = True
+            k = rng.randint(5, 8)
         inp["renderings"] = [{"repG": mg.gen_repr(rng), "repH": mg.gen_repr(rng), "ev": ev(),
                               "seedG": rng.randrange(10 ** 6), "seedH": rng.randrange(10 ** 6)} for _ in range(k)]
     elif kind == "collection":
@@ -144,7 +151,7 @@ def run_case(case, sched):
         mg.check_graph_json(H)
         if not (_connected(G) and _connected(H)):
             raise InvalidCase("connected graphs expected")
-        exact2, _, _ = mg.exact_double_mgh(G, H)
+        exact2 = None if inp.get("no_reference") else mg.exact_double_mgh(G, H)[0]
         rs = inp.get("renderings") or []
         if not rs:
             raise InvalidCase("no rendering")
@@ -165,7 +172,8 @@ def run_case(case, sched):
                                     "lower bound %r %s but %r %s" % (lbs[0][0], lbs[0][1], lb, where))
         probes["formats_seen"] = len({r["repG"]["fmt"] for r in rs} | {r["repH"]["fmt"] for r in rs})
         probes["symmetric_or_lower_fill"] = int(any(r["repG"]["fill"] != "upper" or r["repH"]["fill"] != "upper" for r in rs))
-        nontrivial = exact2 is not None and max(G["n"], H["n"]) >= 3 and len(rs) >= 2
+        nontrivial = (exact2 is not None or inp.get("no_reference")) and max(G["n"], H["n"]) >= 3 and len(rs) >= 2
+        probes["lower_bound_stability_only"] = int(bool(inp.get("no_reference")))
         key = [kind, G, H]
     elif kind == "collection":
         gs = inp.get("graphs") or []
